@@ -146,7 +146,21 @@ fn parent(prop: &'static str, tier: Tier, seed: u64) -> i32 {
 	};
 	if let Some(code) = status.code() {
 		return match code {
-			0 | 1 | 2 => code,
+			0 | 1 | 2 => {
+				// thorough tier: coverage-guided campaign with the same oracle inside the target
+				match jsv::fuzzstage::run(prop, tier, seed) {
+					Some(f) => {
+						if code == 1 || f.code == 1 {
+							1
+						} else if code == 2 || f.code == 2 {
+							2
+						} else {
+							0
+						}
+					}
+					None => code,
+				}
+			}
 			other => {
 				eprintln!("INCONCLUSIVE: worker for {prop} exited with unexpected code {other} (harness failure)");
 				2
